@@ -533,12 +533,31 @@ class Engine:
                 x, y = ea.as_long(), eb.as_long()
                 r = {'BitAnd': x & y, 'BitOr': x | y, 'Shl': x << y, 'Shr': x >> y, 'BitXor': x ^ y, 'Rem': x % y if y else 0}[op]
                 return IntV(z3.IntVal(r), ty)
+            if op in ('BitAnd', 'BitOr', 'BitXor') and z3.is_int_value(ea) and not z3.is_int_value(eb):
+                ae, be, ea, eb = be, ae, eb, ea
             if op == 'BitAnd' and z3.is_int_value(eb):
                 y = eb.as_long()
                 # single-bit or low-mask special cases
                 if y & (y + 1) == 0: return IntV(ae % (y + 1), ty)
                 if y & (y - 1) == 0: return IntV(((ae / y) % 2) * y, ty)
             if op == 'Shr' and z3.is_int_value(eb): return IntV(ae / (1 << eb.as_long()), ty)
+            if op == 'Shl' and z3.is_int_value(eb) and ty in INT_RANGES:
+                lo, hi = INT_RANGES[ty]; n = hi - lo + 1
+                return IntV(((ae * (1 << eb.as_long())) - lo) % n + lo, ty)
+            if op == 'BitOr' and z3.is_int_value(eb) and eb.as_long() & (eb.as_long() - 1) == 0 and eb.as_long() > 0:
+                y = eb.as_long()     # set a single bit
+                return IntV(ae + (1 - (ae / y) % 2) * y, ty)
+            if op == 'BitAnd' and z3.is_int_value(eb) and ty in INT_RANGES and INT_RANGES[ty][0] == 0:
+                y = eb.as_long(); full = INT_RANGES[ty][1]
+                inv = full ^ y
+                if inv & (inv - 1) == 0 and inv > 0:   # clear a single bit: x & !bit
+                    return IntV(ae - ((ae / inv) % 2) * inv, ty)
+                # general constant mask: sum of the selected bits (only for small popcounts)
+                bits_ = [1 << i for i in range(y.bit_length()) if (y >> i) & 1]
+                if len(bits_) <= 8:
+                    e = z3.IntVal(0)
+                    for b_ in bits_: e = e + ((ae / b_) % 2) * b_
+                    return IntV(e, ty)
             if op == 'Rem' : return IntV(ae % be, ty)
             return IntV(z3.Int(self.ex.fresh_name('bitop_' + op)), ty)
         raise Exception('binop ' + op)
@@ -643,7 +662,7 @@ class Engine:
         if m and (m.group(1) or m.group(2)) in INT_RANGES and isinstance(args[0], IntV):
             return IntV(args[0].e * W, I80)
         m = re.match(r'^core::num::<impl (\w+)>::(\w+)$', c)
-        if m and m.group(1) in INT_RANGES:
+        if m and m.group(1) in INT_RANGES and args and isinstance(args[0], IntV) and all(isinstance(x, IntV) for x in args[1:2]):
             ty = m.group(1); lo, hi = INT_RANGES[ty]; f = m.group(2)
             a = args[0].e; b = args[1].e if len(args) > 1 else None
             if f in ('checked_sub', 'checked_add', 'checked_mul'):
@@ -743,6 +762,75 @@ class Engine:
             return EnumV('Result', 0, {0: {0: clk}})
         if re.search(r'Pubkey as Default>::default$', c):
             return IntV(z3.IntVal(0), 'Pubkey')
+        if re.match(r'^(std::ops::)?RangeInclusive::<(\w+)>::new$', c):
+            return StructV('RangeInclusive', self.ex.fresh_name('range'), {0: args[0], 1: args[1]}, lazy=False)
+        if re.match(r'^(std::ops::)?RangeInclusive::<(\w+)>::contains::<', c):
+            rg = self.deref_val(args[0]); x = self.deref_val(args[1])
+            if isinstance(rg, StructV) and 0 in rg.fields:
+                return BoolV(z3.And(rg.fields[0].e <= x.e, x.e <= rg.fields[1].e))
+        m = re.match(r'^<(\w+) as TryFrom<(\w+)>>::try_from$|^<(\w+) as TryInto<(\w+)>>::try_into$', c)
+        if m:
+            dst, src = (m.group(1), m.group(2)) if m.group(1) else (m.group(4), m.group(3))
+            if dst in INT_RANGES and src in INT_RANGES and isinstance(args[0], IntV):
+                lo, hi = INT_RANGES[dst]; a = args[0].e
+                d = z3.simplify(z3.If(z3.And(a >= lo, a <= hi), 0, 1))
+                return EnumV('Result', d.as_long() if z3.is_int_value(d) else d, {0: {0: IntV(a, dst)}, 1: {0: Opaque('TryFromIntError', 'tryfrom_err')}})
+        m = re.match(r'^core::num::<impl (u128|i128|u64|i64)>::from_le_bytes$', c)
+        if m:
+            arr = self.deref_val(args[0])
+            if isinstance(arr, StructV):
+                if '__le' not in arr.fields:
+                    arr.fields['__le'] = self.ex.fresh(m.group(1), arr.name + '.le')
+                v = arr.fields['__le']
+                return IntV(v.e, m.group(1))
+        m = re.match(r'^core::num::<impl (\w+)>::(checked_div|checked_rem|unsigned_abs|abs|pow|checked_pow|wrapping_sub|wrapping_add|abs_diff|is_positive|is_negative|checked_neg|saturating_mul)$', c)
+        if m and m.group(1) in INT_RANGES and isinstance(args[0], IntV):
+            ty = m.group(1); lo, hi = INT_RANGES[ty]; f = m.group(2); a = args[0].e; b = args[1].e if len(args) > 1 and isinstance(args[1], IntV) else None
+            if f == 'checked_div':
+                q = tdiv(a, b)
+                return opt(z3.Or(b == 0, q > hi, q < lo), IntV(q, ty), f'Option<{ty}>')
+            if f == 'unsigned_abs':
+                return IntV(abs_(a), 'u' + ty[1:])
+            if f == 'abs':
+                st.pc.append(a != lo); return IntV(abs_(a), ty)
+            if f == 'is_positive': return BoolV(a > 0)
+            if f == 'is_negative': return BoolV(a < 0)
+            if f == 'abs_diff': return IntV(abs_(a - b), 'u' + ty[1:] if ty[0] == 'i' else ty)
+            if f in ('wrapping_sub', 'wrapping_add'):
+                r = a - b if f == 'wrapping_sub' else a + b; n = hi - lo + 1
+                return IntV((r - lo) % n + lo, ty)
+            if f == 'saturating_mul':
+                r = a * b
+                return IntV(z3.If(r < lo, lo, z3.If(r > hi, hi, r)), ty)
+            if f == 'checked_neg':
+                return opt(z3.Or(-a > hi, -a < lo), IntV(-a, ty), f'Option<{ty}>')
+        m = re.match(r'^(std::result::)?Result::<(.*)>::(map_err|or_else)::<', c)
+        if m and isinstance(args[0], EnumV):
+            r = args[0]
+            return EnumV('Result', r.disc, {0: dict(r.payload.get(0, {})), 1: {0: Opaque('E', 'mapped_err')}})
+        m = re.match(r'^(std::result::)?Result::<(.*)>::ok$', c)
+        if m and isinstance(args[0], EnumV):
+            r = args[0]; d = r.disc
+            nd = (1 - d) if isinstance(d, int) else z3.simplify(1 - d)
+            if not isinstance(nd, int) and z3.is_int_value(nd): nd = nd.as_long()
+            return EnumV('Option', nd, {1: dict(r.payload.get(0, {}))})
+        m = re.match(r'^Option::<(.*?)>::ok_or::<', c)
+        if m and isinstance(args[0], EnumV):
+            o = args[0]; d = o.disc
+            nd = (1 - d) if isinstance(d, int) else z3.simplify(1 - d)
+            if not isinstance(nd, int) and z3.is_int_value(nd): nd = nd.as_long()
+            return EnumV('Result', nd, {0: dict(o.payload.get(1, {})), 1: {0: Opaque('E', 'err')}})
+        m = re.match(r'^Option::<(.*?)>::(is_some|is_none)$', c)
+        if m:
+            o = self.deref_val(args[0])
+            if isinstance(o, EnumV):
+                e = disc_eq(o, 1 if m.group(2) == 'is_some' else 0)
+                return BoolV(e)
+        m = re.match(r'^(std::result::)?Result::<(.*)>::(is_ok|is_err)$', c)
+        if m:
+            o = self.deref_val(args[0])
+            if isinstance(o, EnumV):
+                return BoolV(disc_eq(o, 0 if m.group(3) == 'is_ok' else 1))
         # ---- list / iterator models
         if re.match(r'^core::slice::<impl \[.*\]>::iter$', c):
             lst = args[0]
@@ -1244,6 +1332,9 @@ def compute_ipdom(fn):
     fn._ipdom = ip
     return ip
 
+def disc_eq(v, k):
+    d = v.disc
+    return z3.BoolVal(d == k) if isinstance(d, int) else (d == k)
 def fdiv(a, b):  # floor division by positive constant/int (z3 int div is floor for positive divisor)
     return a / b
 def abs_(a): return z3.If(a >= 0, a, -a)
